@@ -673,4 +673,100 @@ theorem inv_initState (g : Graph) (ncls : Nat) (store : List (String × List (St
   rw [sharedStarted_initState]
   exact Nat.zero_le _
 
+/-! ## reachability and the corollaries' vocabulary -/
+
+/-- the states the scheduler can produce: the initial state followed by any finite sequence of `resume` steps of
+any workers with any outcomes (and any fuel) -/
+inductive Reachable (g : Graph) (ncls : Nat) (store : List (String × List (String × String))) : State → Prop
+  | init : Reachable g ncls store (initState g ncls store)
+  | step (s : State) (w : Nat) (out : Outcome) (fuel : Nat) :
+      Reachable g ncls store s → Reachable g ncls store (resume g s w out fuel).1
+
+/-- running a schedule: a list of (worker, outcome of the awaited test) -/
+def runSchedule (g : Graph) (fuel : Nat) (s : State) (l : List (Nat × Outcome)) : State :=
+  l.foldl (fun s p => (resume g s p.1 p.2 fuel).1) s
+
+theorem reachable_runSchedule (g : Graph) (ncls : Nat) (store : List (String × List (String × String))) (fuel : Nat)
+    (l : List (Nat × Outcome)) (s : State) (h : Reachable g ncls store s) : Reachable g ncls store (runSchedule g fuel s l) := by
+  induction l generalizing s with
+  | nil => exact h
+  | cons p l ih => exact ih _ (Reachable.step s p.1 p.2 fuel h)
+
+/-- no copy has been bumped (no bounce outlasted the budget of the node it waited for) -/
+def NoBump (s : State) : Prop := ∀ i, (s.nd i).bump = 0
+
+/-- the threshold of every copy can only grow: `max_concurrent_tries` is configured or `max_tries ≤ 1` -/
+def MonoLimits (g : Graph) : Prop :=
+  ∀ n, n < g.nodes.length → (g.node n).mct.isSome = true ∨ (g.node n).maxTries.getD 1 ≤ 1
+
+instance (g : Graph) : Decidable (MonoLimits g) := by unfold MonoLimits; infer_instance
+
+/-- the maximum over the copies of class `c` of the thresholds currently in force -/
+def classLimitNow (g : Graph) (s : State) (c : Nat) : Nat :=
+  ((g.classNodes c).map (limit g s)).foldr max 0
+
+theorem foldr_max_le {α} (l : List α) (f : α → Nat) (B : Nat) (h : ∀ x ∈ l, f x ≤ B) : (l.map f).foldr max 0 ≤ B := by
+  induction l with
+  | nil => simp
+  | cons b l ih =>
+    simp only [List.map_cons, List.foldr_cons]
+    have h1 := h b (List.mem_cons_self ..)
+    have h2 := ih (fun x hx => h x (List.mem_cons_of_mem _ hx))
+    omega
+
+theorem peakLimit_noBump (g : Graph) (s : State) (n : Nat) (h : (s.nd n).bump = 0) : peakLimit g s n = limit0 g n := by
+  unfold peakLimit limit limit0 mctOf
+  simp [h]
+
+theorem peakLimit_mono_limits (g : Graph) (s : State) (n : Nat)
+    (h : (g.node n).mct.isSome = true ∨ (g.node n).maxTries.getD 1 ≤ 1) : peakLimit g s n = limit g s n := by
+  unfold peakLimit limit limit0 mctOf
+  dsimp only
+  cases hm : (g.node n).mct with
+  | some m => simp only [Option.getD_some]; split <;> omega
+  | none =>
+    simp only [hm, Option.isSome_none, Bool.false_eq_true, false_or] at h
+    simp only [Option.getD_none]
+    split <;> omega
+
+theorem classLimit_noBump_le (g : Graph) (s : State) (c B : Nat) (hb : NoBump s)
+    (h : ∀ m, m < g.nodes.length → (g.node m).cls = c → limit0 g m ≤ B) : classLimit g s c ≤ B := by
+  unfold classLimit
+  apply foldr_max_le
+  intro m hm
+  rw [mem_classNodes] at hm
+  rw [peakLimit_noBump g s m (hb m)]
+  exact h m hm.1 hm.2
+
+theorem classLimit_eq_now (g : Graph) (s : State) (c : Nat) (h : MonoLimits g) : classLimit g s c = classLimitNow g s c := by
+  unfold classLimit classLimitNow
+  congr 1
+  apply List.map_congr_left
+  intro m hm
+  rw [mem_classNodes] at hm
+  exact peakLimit_mono_limits g s m (h m hm.1)
+
+theorem inScopeOf_self (sh : Shape) (g : Graph) (w : Nat) : inScopeOf sh g w w = true := by
+  cases sh <;> simp [inScopeOf]
+
+/-- a count of at most one means: two marks of the class held within one scope belong to the same worker -/
+theorem same_worker_of_count_le_one (g : Graph) (s : State) (n i j v v' : Nat)
+    (h : scopedCount g s n v ≤ 1) (hi : i ∈ g.copies n) (hj : j ∈ g.copies n)
+    (hv : (s.nd i).started = some v) (hv' : (s.nd j).started = some v')
+    (hsc : inScopeOf (g.node n).shape g v v' = true) : v = v' := by
+  apply Classical.byContradiction
+  intro hne
+  have : [v, v'].length ≤ ((sharedStarted g s n).filter (inScopeOf (g.node n).shape g v)).length := by
+    apply length_le_of_nodup_subset
+    · simp [hne]
+    · intro x hx
+      simp only [List.mem_cons, List.not_mem_nil, or_false] at hx
+      rw [List.mem_filter]
+      rcases hx with rfl | rfl
+      · exact ⟨(mem_sharedStarted g s n x).mpr ⟨i, hi, hv⟩, inScopeOf_self _ g x⟩
+      · exact ⟨(mem_sharedStarted g s n x).mpr ⟨j, hj, hv'⟩, hsc⟩
+  unfold scopedCount at h
+  simp only [List.length_cons, List.length_nil] at this
+  omega
+
 end I2N.Trav
